@@ -24,7 +24,10 @@ Usable(t) == t.op \notin {"panic", "unverifiable"}
 RECURSIVE BadDivs(_)
 RECURSIVE BadDivsSeq(_, _)
 BadDivsSeq(args, i) == IF i > Len(args) THEN 0 ELSE BadDivs(args[i]) + BadDivsSeq(args, i + 1)
-IsBadDen(d) == VarsOf(d) # {} \/ LET v == Eval(d, <<>>) IN ~IsDef(v) \/ RZero(v)
+\* (semantically: a denominator that is zero or undefined at some assignment, or
+\* whose value depends on the assignment; `p or 2` is the constant 1)
+IsBadDen(d) == LET vals == {Eval(d, env) : env \in Envs(d)} IN
+               Cardinality(vals) > 1 \/ \E v \in vals : ~IsDef(v) \/ RZero(v)
 BadDivs(e) ==
    CASE e.op \in {"num", "var"} -> 0
      [] e.op \in {"neg", "not", "u_not", "abs"} -> BadDivs(e.a)
